@@ -27,7 +27,7 @@ CHECKS.update({
  "C10": ("model_checking", "TLC enumerates every interleaving of New/Step/Finish over two instances (spec/Histories.tla, Isolation / NonInterference); sampled behaviours are replayed in one process and each instance compared with its solo baseline; fresh interpreter processes with different hash seeds", "5 C10", "TLC-enumerated API histories replayed on the code, judged by Equiv.tla"),
  "C11": ("model_checking", "re-running the same model object / building new models from the same user objects after n runs, for every strategy (incl. dated schedule), deepened profiles, thermal and converted crops, CO2 options; last run vs first run judged by TLC; an exception is a violation", "5 C11", "API histories with shared inputs replayed on the code, judged by Equiv.tla"),
  "C14": ("exploration", "pairs (base, weather perturbed from cut day t on) judged on rows before t; weather outside the window altered / removed / padded; end date extended; TLC judges every pair (Equiv rules prefix / identity / seasons). Two-run property of the implementation: explored, not proved", "5 C14", "perturbation pairs judged by Equiv.tla"),
- "C15": ("exploration", "weather-table transformations (all 120 column permutations x extra columns x index kinds x extra rows; quick: covering sample) vs canonical table, rule identity", "5 C15", "transformation pairs judged by Equiv.tla"),
+ "C15": ("exploration", "weather-table transformations (120 column permutations x extra columns x 9 index kinds incl. date-like and non-unique ones x extra / sparse / missing rows outside the window; thorough: every permutation with 30 settings of the other dimensions and every setting with 4 permutations; quick: covering sample) vs canonical table, rule identity", "5 C15", "transformation pairs judged by Equiv.tla"),
  "C16": ("exploration", "catalogue crops x soils x strategies (thorough: all 3330), option switches, leap-day dates, windows with no/partial seasons; each outcome judged by TLC against spec/Outcome.tla (completed & finite, or documented rejection in a documented phase); timeouts are non-termination verdicts", "5 C16", "outcome oracle in TLA+ (Outcome.tla) over an enumerated configuration space"),
  "C17": ("exploration", "MC_Gdd model-checks the transcribed GDD formula exhaustively (half-degree lattice); real response functions are swept along lattices and every sweep is judged by TLC (spec/Response.tla): range, monotonicity as an action property over consecutive calls, boundary values, exact GDD / linear coefficients, inverse", "5 C17", "TLC model checking of the piecewise-linear part + lattice sweeps judged by Response.tla"),
  "C18": ("model_checking", "the profile-construction algorithm is an exact TLA+ state machine in integer centimetres (spec/SoilBuild.tla): MC_Soil checks well-formedness and termination of the deepening loop; TLC's finished profiles are replayed on the code through the public API and compared for equality; profiles + initial water contents built by the code are judged by spec/SoilDoc.tla", "5 C18", "exact TLA+ construction model, TLC incl. liveness, replay of spec behaviours into the code"),
